@@ -355,6 +355,53 @@ def case_lists(ctx, rseed):
         run("%s.new_block(ranges)" % K.__name__, F.new_block, 2, 3)
         F = K()
         run("%s.add_clauses_from" % K.__name__, F.add_clauses_from, [[1, 2], [-1, 3], []])
+    # literals that are not plain small ints (identity and type of every element are part of the snapshot), and calls
+    # that are refused half-way because the formula itself declines a clause
+    import enum
+
+    class Lit(enum.IntEnum):
+        A = 1
+        B = 2
+        C = 3
+
+    class Budget(CNF):
+        """A formula of the user's that accepts a limited number of clauses."""
+        def __init__(self, budget):
+            CNF.__init__(self)
+            self.budget = budget
+
+        def add_clause(self, clause, check=True):
+            if self.budget <= 0:
+                raise RuntimeError("clause budget exhausted")
+            self.budget -= 1
+            return CNF.add_clause(self, clause, check=check)
+
+    odd_lists = [("large literals", lambda: [1000, -2000, 3000, 4000]), ("IntEnum literals", lambda: [Lit.A, Lit.C, Lit.B]),
+                 ("bool literal", lambda: [True, -2, 3]), ("mixed", lambda: [Lit.B, -1000, True])]
+    for tag, make in odd_lists:
+        for op in ("<=", ">=", "<", ">", "==", "!="):
+            for const in (0, 1, 2):
+                F = CNF()
+                F.update_variable_number(5000)
+                run("CNF.add_linear[%s] with %s" % (op, tag), F.add_linear, make(), op, const)
+                ctx.count("non_plain_int_literal_lists")
+                for budget in (0, 1, 2):
+                    B = Budget(budget)
+                    B.update_variable_number(5000)
+                    run("CNF.add_linear[%s] with %s, refused by the formula after %d clause(s)" % (op, tag, budget), B.add_linear, make(), op, const)
+                    ctx.count("calls_refused_half_way")
+        for name in ("cardinality_neq", "cardinality_eq", "add_loose_majority", "add_strict_minority"):
+            for budget in (0, 1, 3):
+                B = Budget(budget)
+                B.update_variable_number(5000)
+                args = (make(), 1) if name.startswith("card") else (make(),)
+                run("CNF.%s with %s, refused by the formula after %d clause(s)" % (name, tag, budget), getattr(B, name), *args)
+                ctx.count("calls_refused_half_way")
+        B = Budget(1)
+        B.update_variable_number(5000)
+        run("CNF.add_parity with %s, refused by the formula" % tag, B.add_parity, make(), 1)
+    for op in ("!=", "==", "<="):
+        run("CNF.add_linear[%s](check=False) with None among the literals" % op, CNF().add_linear, [1, None, 3, -2], op, 1, check=False)
     # calls that are refused: the arguments must be intact after the exception as well
     from cnfgen.graphs import BipartiteGraph
     F = g.PigeonholePrinciple(2, 2)
